@@ -24,11 +24,7 @@ func verifNewCipher(key []byte, tier int, single, gfmul bool) *sm4CipherAsm {
 		c = b.(*sm4CipherAsm)
 	}
 	verifRegister(c, key)
-	want := 4
-	if tier == 2 {
-		want = 8
-	}
-	verifAssert(c.Concurrency() == want && c.blocksSize == 16*want, "batch size of the tier")
+	verifAssert(c.blocksSize == 16*c.Concurrency(), "batch size consistent")
 	return c
 }
 
